@@ -110,6 +110,11 @@ class GDict:
             seen[(d["code"], d["vendor"])] = d
         return list(seen.values())
 
+    def name_unique(self, name):
+        """exactly one live definition carries this name (by-name construction is then determined; with several
+        carriers the properties only demand *a* live definition with that name - C14/C16 exercise that case)"""
+        return sum(1 for d in self.live() if d["name"] == name) == 1
+
     def line(self):
         return dict_line(self.id, self.ops)
 
@@ -130,6 +135,20 @@ def synthetic_dict(r, dictid, via_xml=False):
         defs.append(dict(code=r.choice([1, 255, 256, 65535, 65536, 0xffffffff, r.below(1 << 32)]),
                          vendor=r.choice([None, 1, 10415, 0xffffffff]), name=f"R-{r.below(1000)}".encode(), ty=ty, m=r.chance(1, 2)))
     defs = r.shuffle(defs)
+    # re-declarations, in this order: keys renamed (the old name is no longer live), type and M flag replaced,
+    # vendor id 0 next to the vendor-less twin, a name carried by two keys of which one is renamed afterwards
+    seq = []
+    for i, v in enumerate([None, 10415, 0, 77]):
+        seq.append(dict(code=3000 + i, vendor=v, name=f"Old-{i}".encode(), ty=TYS[1 + i], m=bool(i & 1)))
+    seq.append(dict(code=3002, vendor=None, name=b"Zero-Twin", ty="utf", m=True))
+    for i, v in enumerate([None, 10415, 0, 77]):
+        seq.append(dict(code=3000 + i, vendor=v, name=f"New-{i}".encode(), ty=TYS[6 + i], m=not bool(i & 1)))
+    seq += [dict(code=3100, vendor=None, name=b"Twin", ty="u32", m=False), dict(code=3101, vendor=9, name=b"Twin", ty="u32", m=False),
+            dict(code=3101, vendor=9, name=b"Twin-Renamed", ty="u64", m=True),
+            dict(code=3200, vendor=None, name=b"Same-Name", ty="i32", m=False), dict(code=3200, vendor=None, name=b"Same-Name", ty="oct", m=True),
+            # one name carried by two live definitions (which of them a by-name lookup returns is left open by the properties)
+            dict(code=3301, vendor=10415, name=b"Shared-Name", ty="u32", m=True), dict(code=3300, vendor=None, name=b"Shared-Name", ty="u32", m=False)]
+    defs = defs + seq
     g.defs = defs
     if via_xml:
         apps = [dict(name=b"GenApp", id=4, cmds=[(b"Credit-Control", 272)],
@@ -185,7 +204,7 @@ def gen_aexp(r, g, depth, budget, big=False, named_ok=True):
     if r.chance(1, 25):
         vty = r.choice(TYS[1:])      # a value of another type under this code (the encoder does not consult the dictionary)
     v = gen_vexp(r, g, vty, depth, budget, big)
-    if named_ok and r.chance(1, 6):
+    if named_ok and r.chance(1, 6) and g.name_unique(d["name"]):
         return ("N", d["name"], v)
     return ("E", d["code"], d["vendor"], r.choice([0, 0x40, 0x20, 0x60, 0x80, 0xff, 0x1f, r.below(256)]), v)
 
@@ -206,7 +225,10 @@ def gen_history(r, g, maxops=8, depth=3, big=False):
         elif c < 84:
             e = gen_aexp(r, g, r.range(0, depth), budget, big, named_ok=False)
             d = g.lookup(e[1], e[2])
-            ops.append(("ADDNAME", d["name"] if d else b"X", e[4]))
+            if d and g.name_unique(d["name"]):
+                ops.append(("ADDNAME", d["name"], e[4]))
+            else:
+                ops.append(("ADDAVP", e[1], e[2], e[3], e[4]))
         elif c < 89:
             ops.append(("ADDNAME", r.choice([b"Does-Not-Exist", b"", b"session-id", b"T-u32 ", r.bytes(3).hex().encode()]),
                         ("L", gen_leaf(r))))
